@@ -823,6 +823,11 @@ func Edits(r *R, maxOps int) EditCase {
 			op := g.op(false)
 			op.Board = 0
 			op.Str[0] = plainName(r) + fmt.Sprint(r.Intn(90)+10)
+			if r.P(0.15) {
+				// quoting-sensitive *values* on otherwise plain programs (the operation is then not
+				// counted as plain, but no root-cause trigger holds either)
+				op.Str[0] = Pick(r, []string{"sum: ${total}\nsee template", "a ${b} c\nd", "two\nlines", "semi;colon", "x: y", "#hash", "a.b", "${x}", "'q'", "\"dq\"", " lead", "{", "|pipe|"})
+			}
 			c.Ops = append(c.Ops, op)
 		}
 		c.Feat = []string{"plain-profile"}
